@@ -5,6 +5,10 @@ CONSTANTS
   MaxF = 0
   UseStop = TRUE
   Flat = TRUE
+  Pre = FALSE
+  Shape = "any"
+  MaxP = 1
+  MaxW = 1
 SPECIFICATION Spec
 INVARIANTS InvExact InvRoundTrip InvNearest InvBounded PrintSchedules
 CHECK_DEADLOCK FALSE
